@@ -41,6 +41,12 @@ Judge(e) ==
     [] n = "CvFitCurve"       -> FitCurveClauses(AsC(e.c), e.act.kv, e.act.nodes, AsC(e.d), e.act.err)
     [] n = "CvFitPoints"      -> FitPointsClauses(e.act.kv, e.act.weights, e.act.nodes, e.act.data, AsC(e.d))
     [] n = "Rule"             -> RuleClauses(e.act.xs, e.act.ws, e.act.order)
+    [] n = "KvRandom"         -> Fails({<<"random_has_witness",
+                                     /\ \A i \in DOMAIN e.act.w : e.act.w[i][2] = 1 /\ e.act.w[i][1] \in 1..999
+                                     /\ Len(e.act.w) = e.act.n - e.act.p
+                                     /\ e.d.U = NormalizeKV(WeightKV(e.act.p, e.act.w)).kv>>,
+                                   <<"degree_npts", IsKnotVector(e.d.U) /\ Deg(e.d.U) = e.act.p /\ Npts(e.d.U) = e.act.n>>,
+                                   <<"limits_exactly_01", Limits(e.d.U) = <<Zero, One>> >>})
     [] OTHER                  -> {"unknown_event_kind"}
 
 RECURSIVE SetToSeqS(_)
